@@ -1,7 +1,7 @@
 SPECIFICATION MCSpec
 CONSTANTS
   MaxPrev = 4
-  MaxDecodes = 3
+  MaxDecodes = 2
   Canonical = TRUE
 INVARIANTS
   RoundTrip
